@@ -332,6 +332,9 @@ impl Harness for C04 {
         let jobs = {
             let mut j: Vec<Job> = jobs;
             j.insert(0, Job::new("builders", json!({"kind": "builders"})));
+            for i in 0..mc_sc::entry::n_parts("C04") {
+                j.insert(1 + i, Job::new(format!("entry-{}", i), json!({"kind": "entry", "part": i})));
+            }
             j
         };
         Plan {
@@ -341,6 +344,7 @@ impl Harness for C04 {
             // about a tenth of what the quick tier counts at seed 0
             floors: vec![
                 ("builder_chains", 5),
+                ("entry_cases", 1000),
                 ("tie_between_neighbours", 300_000),
                 ("query_coincides_with_a_point", 50_000),
                 ("knn_not_a_prefix_of_data_order", 300_000),
@@ -368,6 +372,7 @@ impl Harness for C04 {
             ],
             bounds: json!({
                 "builders": mc_sc::builders::BOUNDS,
+                "entry_paths": mc_sc::entry::BOUNDS,
                 "lattice_3x3": format!("every sequence of 1..{} points x 25 half-step queries, all 4 metrics; Manhattan up to {} points; Euclidean up to {} points; f32 up to {} points", lat2_all_metrics, lat2_manhattan, lat2_euclid, if t { 5 } else { 3 }),
                 "lattice_1d": format!("every sequence of 1..{} points of {{0..4}} x 11 half-step queries, all 4 metrics", lat1_max),
                 "scale_boundary_alphabet": format!("every sequence of 2..{} points over {} letters (0, 1.3^s and its two floating-point neighbours, s=-2..3) x {} queries; Euclidean and Manhattan", if t { 4 } else { 3 }, nletters, nletters + 1),
@@ -399,6 +404,9 @@ impl Harness for C04 {
     }
 
     fn run(&self, job: &Job) {
+        if job.kind() == "entry" {
+            return mc_sc::entry::run_part("C04", job.u("part"));
+        }
         if job.kind() == "builders" {
             return mc_sc::builders::run("C04");
         }
